@@ -63,7 +63,7 @@ def has_default_quant_matrix(wi, wiho, dd, ddho):
     return (wi, wiho, dd, ddho) in QUANTISATION_MATRICES
 
 
-def make_cf(name="cf", profile=3, lossless=False, level=0, picture_coding_mode=0, wavelet_index=4, wavelet_index_ho=None, dwt_depth=1, dwt_depth_ho=0, slices_x=2, slices_y=1, fragment_slice_count=0, picture_bytes="auto", quantization_matrix="auto", vp=None, **vpkw):
+def make_cf(name="cf", profile=3, lossless=False, level=0, picture_coding_mode=0, wavelet_index=4, wavelet_index_ho=None, dwt_depth=1, dwt_depth_ho=0, slices_x=2, slices_y=1, fragment_slice_count=0, picture_bytes="auto", quantization_matrix="auto", vp=None, plain_ints=False, **vpkw):
     from vc2_conformance.codec_features import CodecFeatures
     from vc2_data_tables import Levels, Profiles, PictureCodingModes, WaveletFilters
 
@@ -79,6 +79,25 @@ def make_cf(name="cf", profile=3, lossless=False, level=0, picture_coding_mode=0
         picture_bytes = None
     elif picture_bytes == "auto":
         picture_bytes = 24 * slices_x * slices_y
+    if plain_ints:
+        # index-valued entries as plain integers (IntEnum members compare equal to them)
+        return CodecFeatures(
+            name=name,
+            level=int(level),
+            profile=int(profile),
+            picture_coding_mode=int(picture_coding_mode),
+            video_parameters=vp,
+            wavelet_index=int(wavelet_index),
+            wavelet_index_ho=int(wavelet_index_ho),
+            dwt_depth=dwt_depth,
+            dwt_depth_ho=dwt_depth_ho,
+            slices_x=slices_x,
+            slices_y=slices_y,
+            fragment_slice_count=fragment_slice_count,
+            lossless=lossless,
+            picture_bytes=picture_bytes,
+            quantization_matrix=quantization_matrix,
+        )
     return CodecFeatures(
         name=name,
         level=Levels(level),
